@@ -217,6 +217,8 @@ def _cl(case):
 
 
 BASES = ["http://example.com/Art/Page?b=2&a=1", "https://lemonde.co.uk/a", "http://blog.example.org:8080/x/?q=A%20b#/Route", "http://é.example.fr/É"]
+REDIRECT_BASES = ["https://x.cdn.ampproject.org/c/s/example.com/a", "https://www.youtube.com/redirect?q=example.com%2Fa", "http://site.com/out?url=http%3A%2F%2Ftarget.org%2Fp",
+                  "http://bc.marfeel.com/www.site.com/x", "http://www.google.com/url?q=http://t.com/a&sa=D"]
 IP_BASES = ["http://[2001:db8::1]/a?x=1", "http://[::1]/", "http://127.0.0.1/A/b", "http://[::ffff:10.0.0.1]/p#/r"]
 OPTSETS = [{"strip_suffix": a, "platform_aware": b} for a in (False, True) for b in (False, True)]
 
@@ -265,8 +267,8 @@ def _sweep(acc, shard, nshards, seed, tier):
                 emit(b, "%s://%s.%s" % (scheme, bad.lower(), rest), "non-iso-label", o, "differ")
             for it in ["glx=1", "hl2=fr", "ghl=1", "lang=fr"]:
                 emit(b, head + "?" + "&".join(items + [it]) + h + frag, "gl-hl-lookalike", o, "differ")
-    # IP-literal hosts: port and case (a language label or a suffix has no meaning there)
-    for b in IP_BASES:
+    # IP-literal hosts and redirecting URLs: port and case (a language label or a suffix has no meaning there)
+    for b in IP_BASES + REDIRECT_BASES:
         scheme, rest = b.split("://", 1)
         host, _, tail = rest.partition("/")
         for o in OPTSETS:
